@@ -914,6 +914,9 @@ def jobs_for(prop, tier, seed):
             extra.append(dict(j, name=j['name'] + ' [fine+fields]', scn=sc2,
                               bound=dict(b, sched=1), max_execs=400000))
         jobs = jobs + _spread(extra, 8)
+        # keep the tier runnable: no single scenario explores more than 300k executions (a cap that is
+        # hit is reported in the evidence and makes the run non-exhaustive for that scenario)
+        jobs = [dict(j, max_execs=min(j.get('max_execs') or 300000, 300000)) if 'scn' in j else j for j in jobs]
     return jobs
 
 
